@@ -21,11 +21,12 @@ type Program struct {
 	Prog      *ssa.Program
 	Pkgs      map[string]*ssa.Package // by import path
 	Fset      *token.FileSet
-	Overrides map[string]string // full callee name -> full harness func name
+	Overrides map[string]map[string]string // set name -> full callee name -> full harness func name
 	funcIndex map[string]*ssa.Function
 	LoadSec   float64
 	Roots     []string
 	HarnessFiles []string
+	BadDirectives []string
 }
 
 // StdRoots are standard / third party packages whose bodies are executed from source.
@@ -145,7 +146,7 @@ func Load(repo string, harnessDirs []string, repoPkgs []string) (*Program, error
 		return nil, fmt.Errorf("load errors:\n%s", strings.Join(errs, "\n"))
 	}
 	prog, pkgs := ssautil.Packages(initial, ssa.InstantiateGenerics)
-	P := &Program{Prog: prog, Pkgs: map[string]*ssa.Package{}, Overrides: map[string]string{}, funcIndex: map[string]*ssa.Function{}, HarnessFiles: hfiles}
+	P := &Program{Prog: prog, Pkgs: map[string]*ssa.Package{}, Overrides: map[string]map[string]string{}, funcIndex: map[string]*ssa.Function{}, HarnessFiles: hfiles}
 	for i, p := range pkgs {
 		if p == nil {
 			return nil, fmt.Errorf("no ssa package for %s", initial[i].PkgPath)
@@ -177,15 +178,22 @@ func (P *Program) parseDirective(c *ast.Comment, pkgPath string) {
 	if !strings.HasPrefix(t, "verif:override ") {
 		return
 	}
+	// verif:override <set> <target> <replacement>
 	f := strings.Fields(t)
-	if len(f) != 3 {
+	if len(f) != 4 {
+		P.BadDirectives = append(P.BadDirectives, c.Text)
 		return
 	}
-	target, repl := f[1], f[2]
+	set, target, repl := f[1], f[2], f[3]
 	if !strings.Contains(repl, ".") {
 		repl = pkgPath + "." + repl
 	}
-	P.Overrides[target] = repl
+	// shorthand: repo-relative targets
+	target = strings.ReplaceAll(target, "idena-go/", RepoMod+"/")
+	if P.Overrides[set] == nil {
+		P.Overrides[set] = map[string]string{}
+	}
+	P.Overrides[set][target] = repl
 }
 
 // FuncByName finds a function by its ssa String() name, e.g.
